@@ -65,6 +65,9 @@ func main() {
 	if *replay != "" {
 		os.Exit(doReplay(*replay, *repo, *verif))
 	}
+	if *prop == "all" {
+		os.Exit(runAllProps(*tier, seed, *repo, *verif))
+	}
 	p := properties[*prop]
 	if p == nil {
 		fmt.Printf("BROKEN: unknown property %q\n", *prop)
@@ -204,4 +207,47 @@ func doReplay(path, repo, verif string) int {
 	}
 	fmt.Printf("replay %s: obligation no longer exists on the current tree\n", r.Obligation.Key)
 	return 0
+}
+
+
+// runAllProps analyses the default build variant once and evaluates every registered property on it (used by
+// sweeps; the registered per-property commands run one property per process).
+func runAllProps(tier string, seed int, repo, verif string) int {
+	start := time.Now()
+	c, err := load(loadOpts{Dir: repo})
+	if err != nil {
+		fmt.Printf("BROKEN: %v\n", err)
+		return 2
+	}
+	var ids []string
+	for id := range properties {
+		ids = append(ids, id)
+	}
+	sort.Strings(ids)
+	worst := 0
+	for _, id := range ids {
+		p := properties[id]
+		c.Prop = id
+		c.Obls, c.Unresolved, c.Notes = nil, nil, nil
+		c.floors, c.explain = nil, nil
+		func() {
+			defer func() {
+				if r := recover(); r != nil {
+					c.unresolved("analyzer panic in %s: %v", id, r)
+				}
+			}()
+			for _, r := range p.Rules {
+				r(c)
+			}
+		}()
+		floors, explain := c.floors, c.explain
+		if floors == nil {
+			floors, explain = map[string]int{}, map[string]string{}
+		}
+		rc := finish(verif, p, tier, seed, c.Obls, c.Unresolved, c.Notes, floors, explain, map[string]interface{}{"analysed": []map[string]interface{}{{"variant": "", "packages": len(c.Pkgs)}}}, start)
+		if rc > worst {
+			worst = rc
+		}
+	}
+	return worst
 }
